@@ -616,6 +616,7 @@ func runCheck(r *propRun) int {
 		"machine integers are mathematical integers except in functions marked 'arith checked'",
 		"float64 is modelled as real; resource.Quantity is an exact real",
 		"append always yields a fresh backing array (no aliasing through append)",
+		"allocation model: a callee that is not executed may expose new objects only in the id spaces reachable by type from its results and from what it may modify; error and context.Context values, and interface values handed out by 'ignore'd functions, are assumed not to carry references to newly allocated modelled objects",
 		"partial correctness: termination is not proved; implicit panics (nil/index) are assumed absent unless the function is marked nopanic")
 	trusted = append(trusted, "go/packages+go/types+go/ssa (x/tools v0.50.0, naive form)", "govc VC generator (/verif/engine)", "z3 5.1.0 / z3 4.8.12 / cvc5 1.0.3", "built-in library theory of /verif/engine/cmd/govc/theory.go (Quantity, ResourceList accessors, math, bits, sets, time)")
 	for _, lf := range libs {
